@@ -775,18 +775,23 @@ def oracle_erased(case, run):
     return out
 
 
+def with_ops(case, pairs):
+    """the case with the given (op, clock reading) pairs: every op keeps ITS clock reading when others are dropped"""
+    return dict(case, ops=[p[0] for p in pairs], clock=[p[1] for p in pairs])
+
+
 def shrink(case, sig):
-    def still(ops):
-        c = dict(case, ops=ops, clock=case['clock'][:len(ops)])
+    def still(pairs):
+        c = with_ops(case, pairs)
         try:
             r = run_case(c)
             return any(s == sig for s, _ in all_fails(c, r))
         except Exception:
             return False
-    ops = case['ops']
-    if len(ops) > 1 and still(ops):
-        ops = lib.shrink_list(ops, still, max_rounds=60)
-    return dict(case, ops=ops, clock=case['clock'][:len(ops)])
+    pairs = list(zip(case['ops'], case['clock']))
+    if len(pairs) > 1 and still(pairs):
+        pairs = lib.shrink_list(pairs, still, max_rounds=60)
+    return with_ops(case, pairs)
 
 
 class Batch:
@@ -937,18 +942,18 @@ def compare_model(case, run, rep):
 
 
 def shrink_div(ctx, case):
-    def still(ops):
-        c = dict(case, ops=ops, clock=case['clock'][:len(ops)])
+    def still(pairs):
+        c = with_ops(case, pairs)
         try:
             rep = mpsim.driver_run(ctx, [wire_line(c)])
             return rep is not None and compare_model(c, run_case(c), rep[0]) is not None
         except Exception:
             return False
     try:
-        ops = case['ops']
-        if 1 < len(ops) <= 60 and still(ops):
-            ops = lib.shrink_list(ops, still, max_rounds=40)
-        return dict(case, ops=ops, clock=case['clock'][:len(ops)])
+        pairs = list(zip(case['ops'], case['clock']))
+        if 1 < len(pairs) <= 60 and still(pairs):
+            pairs = lib.shrink_list(pairs, still, max_rounds=40)
+        return with_ops(case, pairs)
     except Exception:
         return case
 
